@@ -524,7 +524,7 @@ fn evaluate<M: Matcher>(p: &Prep, m: &M, answers: &[String], ctx: &mut Ctx) {
         // matcher's answers is indexed by positions of the whole input, the reader asks about windows.
         // ChunkReader(n) returns at most n bytes per call = the read script `ret n` repeated.
         let reader_model: Option<String> = match (st, &p.m) {
-            (Strategy::Reader(nchunk), AnyM::Lit(_)) => Some(format!(
+            (Strategy::Reader(nchunk), AnyM::Lit(_)) if input.len() <= 600 => Some(format!(
                 "c16.rbl {} {} {} (script {}) - -",
                 cfg.effective().to_sx(),
                 p.msx,
